@@ -198,6 +198,11 @@ def handlers : List (String × Handler) := [
   ("getGroups", fun j => do
     let r := getGroups (← parseGroups (← j.getObjVal? "groups")) (← parseFilter (← j.getObjVal? "filter"))
     pure (exceptToJson (fun (l : List GroupInfo) => intsToJson (l.map (·.number))) r)),
+  ("sopTypes", fun j => do
+    let built ← (← getArr j "built").toList.mapM (fun b => match b with
+      | .null => pure (none : Option Int)
+      | v => do pure (some (← v.getInt?)))
+    pure (okJson (Json.bool (sopAcceptsTypes (ctOf (← getStr j "ct")) built)))),
   ("sopNumbers", fun j => do
     pure (okJson (Json.bool (sopAcceptsNumbers (← getIntList j "numbers")))))
 ]
